@@ -97,7 +97,10 @@ class Canon:
 
 
 def txt(e):
-    return ' '.join(ast.unparse(e).split())
+    s = ' '.join(ast.unparse(e).split())
+    if isinstance(e, (ast.Yield, ast.YieldFrom, ast.Await)) and s.startswith('(') and s.endswith(')'):
+        s = s[1:-1]
+    return s
 
 
 class Outcome:
@@ -112,12 +115,16 @@ class Outcome:
 
 
 class Interp:
-    def __init__(self, repo, fi, inline=None, max_leaves=4096, body=None, init_env=None):
+    def __init__(self, repo, fi, inline=None, max_leaves=4096, body=None, init_env=None, rename=True):
         self.repo = repo
         self.fi = fi
+        self.rename_on = rename
         self.body = body              # interpret this statement list instead of the whole function
         self.init_env = init_env or {}
         self.canon = Canon(repo, fi)
+        if not rename:
+            self.canon.param_map = {}
+            self.canon.field_map = {}
         self.inline = inline or {}
         self.max_leaves = max_leaves
         self.atoms = {}           # key -> domain
